@@ -61,3 +61,330 @@ theorem wrapInner_delivered (inner : List B) (h : cdStart.isPrefixOf (inner.drop
   exact cdata_roundtrip (voidNorm inner)
 
 end Gomjml.Lines
+
+/-! ### content that begins with a CDATA section of the author's (`wrapOutsideCDATA`) -/
+
+namespace Gomjml.Passes
+open Gomjml.Amp
+
+/-- the continuation behind a closed section: end of text, or another section -/
+def contOk (rest : List B) : Prop := rest = [] ∨ pre9 rest = true
+
+def cont (s rest : List B) : Option (List B) :=
+  if rest = [] then some s else (decodeBody (rest.drop 9)).map (s ++ ·)
+
+theorem decode_end (rest : List B) (h : contOk rest) : decodeBody (93 :: 93 :: 62 :: rest) = cont [] rest := by
+  rw [decodeBody_cons]
+  simp only [pre3, show ((93 : B) == 93 && (93 : B) == 93 && (62 : B) == 62) = true by decide, if_true, List.drop_succ_cons, List.drop_zero]
+  unfold cont
+  rcases h with h | h
+  · subst h; simp
+  · have hne : rest ≠ [] := by intro e; subst e; simp [pre9] at h
+    have hne' : rest.isEmpty = false := by cases rest <;> simp_all
+    simp [hne, hne', h]
+
+theorem take2_append_left (x rest : List B) (h : 2 ≤ x.length) : (x ++ rest).take 2 = x.take 2 := by
+  match x, h with
+  | a :: b :: t, _ => simp
+
+theorem noprefix_preserved_cont (b : B) (t rest : List B) (h : pre3 (b :: t) = false) :
+    pre3 (b :: (Rr t ++ cdEnd ++ rest)) = false := by
+  rw [pre3_take2 b (Rr t ++ cdEnd ++ rest) (Rr t ++ cdEnd) (take2_append_left _ rest (by simp [cdEnd]))]
+  exact noprefix_preserved b t h
+
+theorem cont_cons (b : B) (s rest : List B) : (cont s rest).map (b :: ·) = cont (b :: s) rest := by
+  unfold cont
+  split
+  · rfl
+  · cases decodeBody (rest.drop 9) <;> simp
+
+/-- **CDATA round trip with a continuation** -/
+theorem decodeBody_Rr_cont : ∀ (n : Nat) (s rest : List B), s.length ≤ n → contOk rest →
+    decodeBody (Rr s ++ cdEnd ++ rest) = cont s rest := by
+  intro n
+  induction n with
+  | zero =>
+    intro s rest hs hr
+    have : s = [] := by cases s <;> simp_all
+    subst this
+    rw [Rr_nil]
+    simp only [List.nil_append, cdEnd, List.cons_append]
+    exact decode_end rest hr
+  | succ n ih =>
+    intro s rest hs hr
+    cases s with
+    | nil =>
+      rw [Rr_nil]
+      simp only [List.nil_append, cdEnd, List.cons_append]
+      exact decode_end rest hr
+    | cons b t =>
+      rw [Rr_cons]
+      by_cases hp : pre3 (b :: t) = true
+      · obtain ⟨s', hs'⟩ := pre3_shape _ hp
+        simp only [List.cons.injEq] at hs'
+        obtain ⟨hb, ht⟩ := hs'
+        subst hb; subst ht
+        simp only [hp, if_true, List.drop_succ_cons, List.drop_zero]
+        have hlen : ((62 : B) :: s').length ≤ n := by simp at hs ⊢; omega
+        have ih' := ih ((62 : B) :: s') rest hlen hr
+        rw [Rr_cons] at ih'
+        have hgt : pre3 ((62 : B) :: s') = false := by
+          match s' with
+          | [] => rfl
+          | [_] => rfl
+          | _ :: _ :: _ => simp [pre3]
+        simp only [hgt, Bool.false_eq_true, if_false, List.cons_append] at ih'
+        simp only [cdEndSafe, cdStart, List.cons_append, List.nil_append, List.append_assoc]
+        rw [decodeBody_cons]
+        simp only [pre3, show ((93 : B) == 93 && (93 : B) == 93 && (93 : B) == 62) = false by decide, Bool.false_eq_true, if_false]
+        rw [decodeBody_cons]
+        simp only [pre3, show ((93 : B) == 93 && (93 : B) == 93 && (93 : B) == 62) = false by decide, Bool.false_eq_true, if_false]
+        rw [decodeBody_cons]
+        simp only [pre3, show ((93 : B) == 93 && (93 : B) == 93 && (62 : B) == 62) = true by decide, if_true,
+          List.drop_succ_cons, List.drop_zero, List.isEmpty_cons, Bool.false_eq_true, if_false, pre9]
+        simp only [show ((60 : B) == 60 && (33 : B) == 33 && (91 : B) == 91 && (67 : B) == 67 && (68 : B) == 68 && (65 : B) == 65 &&
+          (84 : B) == 84 && (65 : B) == 65 && (91 : B) == 91) = true by decide, if_true]
+        simp only [List.append_assoc] at ih'
+        rw [ih']
+        rw [cont_cons, cont_cons]
+      · have hp' : pre3 (b :: t) = false := Bool.eq_false_iff.mpr hp
+        simp only [hp', Bool.false_eq_true, if_false, List.cons_append]
+        rw [decodeBody_cons]
+        simp only [noprefix_preserved_cont b t rest hp', Bool.false_eq_true, if_false]
+        rw [ih t rest (by simp at hs; omega) hr]
+        exact cont_cons b t rest
+
+end Gomjml.Passes
+
+namespace Gomjml.Lines
+open Gomjml.Amp Gomjml.Passes
+
+theorem indexSub_cdStart (w : List B) : indexSub cdEnd (cdStart ++ w) = (indexSub cdEnd w).map (· + 9) := by
+  simp only [cdStart, List.cons_append, List.nil_append]
+  simp only [indexSub, cdEnd, List.isPrefixOf]
+  simp only [show ((93 : B) == 60) = false by decide, show ((93 : B) == 33) = false by decide, show ((93 : B) == 91) = false by decide,
+    show ((93 : B) == 67) = false by decide, show ((93 : B) == 68) = false by decide, show ((93 : B) == 65) = false by decide,
+    show ((93 : B) == 84) = false by decide, Bool.false_and, Bool.false_eq_true, if_false, Option.map_map]
+  cases indexSub [93, 93, 62] w <;> simp
+
+theorem indexSub_len (pat : List B) (hp : pat ≠ []) : ∀ (w : List B) (e : Nat), indexSub pat w = some e → e + pat.length ≤ w.length
+  | [], e, h => by simp [indexSub, hp] at h
+  | b :: r, e, h => by
+    rw [indexSub] at h
+    split at h
+    · rename_i hpre
+      simp only [Option.some.injEq] at h
+      subst h
+      have := (List.isPrefixOf_iff_prefix.mp hpre).length_le
+      omega
+    · cases h1 : indexSub pat r with
+      | none => simp [h1] at h
+      | some e1 =>
+        simp only [h1, Option.map_some, Option.some.injEq] at h
+        subst h
+        have := indexSub_len pat hp r e1 h1
+        simp only [List.length_cons]; omega
+
+/-- one section of the author's: from behind its opener up to and including the first `]]>` -/
+theorem decode_section : ∀ (w : List B) (e : Nat) (rest : List B), indexSub cdEnd w = some e → contOk rest →
+    decodeBody (w.take (e + 3) ++ rest) = cont (w.take e) rest
+  | [], e, rest, h, _ => by simp [indexSub, cdEnd] at h
+  | b :: r, e, rest, h, hr => by
+    rw [indexSub] at h
+    split at h
+    · rename_i hpre
+      simp only [Option.some.injEq] at h
+      subst h
+      have hsplit := prefix_split cdEnd (b :: r) hpre
+      have ht : (b :: r).take 3 = cdEnd := by
+        rw [← hsplit]; simp [cdEnd]
+      simp only [Nat.zero_add, ht, List.take_zero]
+      exact decode_end rest hr
+    · rename_i hnp
+      cases h1 : indexSub cdEnd r with
+      | none => simp [h1] at h
+      | some e1 =>
+        simp only [h1, Option.map_some, Option.some.injEq] at h
+        subst h
+        have hlen := indexSub_len cdEnd (by simp [cdEnd]) r e1 h1
+        have hl3 : cdEnd.length = 3 := rfl
+        rw [show e1 + 1 + 3 = (e1 + 3) + 1 from by omega, List.take_succ_cons, List.take_succ_cons, List.cons_append, decodeBody_cons]
+        have hp3 : pre3 (b :: (r.take (e1 + 3) ++ rest)) = false := by
+          rw [pre3_take2 b (r.take (e1 + 3) ++ rest) r]
+          · rw [← pre3_isPrefix]; exact Bool.eq_false_iff.mpr hnp
+          · rw [take2_append_left _ rest (by simp; omega), List.take_take]
+            rw [show min 2 (e1 + 3) = 2 from by omega]
+        simp only [hp3, Bool.false_eq_true, if_false]
+        rw [decode_section r e1 rest h1 hr]
+        exact cont_cons b _ rest
+
+end Gomjml.Lines
+
+namespace Gomjml.Lines
+open Gomjml.Amp Gomjml.Passes
+
+/-- what the XML layer delivers for a run of adjacent CDATA sections (nothing else may stand between them) -/
+def dec (x : List B) : Option (List B) :=
+  if x = [] then some [] else if pre9 x then decodeBody (x.drop 9) else none
+
+theorem cont_dec (s rest : List B) (h : contOk rest) : cont s rest = (dec rest).map (s ++ ·) := by
+  unfold cont dec
+  rcases h with h | h
+  · subst h; simp
+  · have hne : rest ≠ [] := by intro e; subst e; simp [pre9] at h
+    simp [hne, h]
+
+theorem pre9_cdStart (x : List B) : pre9 (cdStart ++ x) = true := by simp [cdStart, pre9]
+
+theorem dec_piece (x rest : List B) (h : contOk rest) : dec (wrapPiece x ++ rest) = (dec rest).map (x ++ ·) := by
+  unfold wrapPiece
+  rw [← Rr_eq_replaceAll x.length x (Nat.le_refl _)]
+  have hne : cdStart ++ Rr x ++ cdEnd ++ rest ≠ [] := by simp [cdStart]
+  have hp : pre9 (cdStart ++ Rr x ++ cdEnd ++ rest) = true := by
+    rw [List.append_assoc, List.append_assoc]; exact pre9_cdStart _
+  have hd : (cdStart ++ Rr x ++ cdEnd ++ rest).drop 9 = Rr x ++ cdEnd ++ rest := by simp [cdStart]
+  rw [dec, if_neg hne, if_pos hp, hd, decodeBody_Rr_cont x.length x rest (Nat.le_refl _) h, cont_dec x rest h]
+
+theorem indexSub_prefix (pat : List B) : ∀ (w : List B) (i : Nat), indexSub pat w = some i → pat.isPrefixOf (w.drop i) = true
+  | [], i, h => by
+    rw [indexSub] at h
+    split at h
+    · rename_i hp; simp at h; subst h; subst hp; rfl
+    · simp at h
+  | b :: r, i, h => by
+    rw [indexSub] at h
+    split at h
+    · rename_i hp; simp at h; subst h; simpa using hp
+    · cases h1 : indexSub pat r with
+      | none => simp [h1] at h
+      | some i1 =>
+        simp only [h1, Option.map_some, Option.some.injEq] at h
+        subst h
+        simpa using indexSub_prefix pat r i1 h1
+
+/-- one section the author wrote, followed by more sections or the end -/
+theorem dec_section (u : List B) (e : Nat) (rest : List B) (hu : cdStart.isPrefixOf u = true)
+    (he : indexSub cdEnd u = some e) (hr : contOk rest) :
+    dec (u.take (e + 3) ++ rest) = (dec rest).map (((u.take e).drop 9) ++ ·) := by
+  have hsplit := prefix_split cdStart u hu
+  have hl9 : cdStart.length = 9 := rfl
+  rw [hl9] at hsplit
+  rw [← hsplit] at he
+  rw [indexSub_cdStart] at he
+  cases h1 : indexSub cdEnd (u.drop 9) with
+  | none => simp [h1] at he
+  | some e' =>
+    simp only [h1, Option.map_some, Option.some.injEq] at he
+    subst he
+    have htake : u.take (e' + 9 + 3) = cdStart ++ (u.drop 9).take (e' + 3) := by
+      conv => lhs; rw [← hsplit]
+      rw [List.take_append, hl9]
+      rw [show e' + 9 + 3 - 9 = e' + 3 from by omega, List.take_of_length_le (by simp [cdStart])]
+    have htake2 : (u.take (e' + 9)).drop 9 = (u.drop 9).take e' := by
+      conv => lhs; rw [← hsplit]
+      rw [List.take_append, hl9, show e' + 9 - 9 = e' from by omega, List.take_of_length_le (by simp [cdStart])]
+      simp [cdStart]
+    rw [htake, htake2]
+    have hne : cdStart ++ (u.drop 9).take (e' + 3) ++ rest ≠ [] := by simp [cdStart]
+    have hp : pre9 (cdStart ++ (u.drop 9).take (e' + 3) ++ rest) = true := by rw [List.append_assoc]; exact pre9_cdStart _
+    have hd : (cdStart ++ (u.drop 9).take (e' + 3) ++ rest).drop 9 = (u.drop 9).take (e' + 3) ++ rest := by simp [cdStart]
+    rw [dec, if_neg hne, if_pos hp, hd, decode_section (u.drop 9) e' rest h1 hr, cont_dec _ rest hr]
+
+/-- the author's text: his CDATA sections opened, everything else as written (`none`: a section is not terminated) -/
+def authorText : Nat → List B → Option (List B)
+  | 0, s => if s = [] then some [] else none
+  | fuel + 1, s =>
+    if s = [] then some [] else
+    match indexSub cdStart s with
+    | none => some s
+    | some idx =>
+      match indexSub cdEnd (s.drop idx) with
+      | none => none
+      | some e =>
+        (authorText fuel ((s.drop idx).drop (e + 3))).map (fun r => s.take idx ++ (((s.drop idx).take e).drop 9 ++ r))
+
+/-- **content behind a leading CDATA section is delivered as written** (the branch repaired in cb901ef): what the XML layer
+    decodes from what `wrapOutsideCDATA` wrote is the author's text — his sections opened, every other byte as he wrote it -/
+theorem wrapOutside_delivered : ∀ (fuel : Nat) (s t : List B), authorText fuel s = some t →
+    contOk (wrapOutside fuel s) ∧ dec (wrapOutside fuel s) = some t
+  | 0, s, t, h => by
+    unfold authorText at h
+    split at h
+    · rename_i hs; subst hs
+      simp only [Option.some.injEq] at h; subst h
+      exact ⟨Or.inl rfl, by simp [wrapOutside, dec]⟩
+    · simp at h
+  | fuel + 1, s, t, h => by
+    unfold authorText at h
+    unfold wrapOutside
+    split at h
+    · rename_i hs; subst hs
+      simp only [Option.some.injEq] at h; subst h
+      exact ⟨Or.inl (by simp), by simp [dec]⟩
+    · rename_i hs
+      simp only [hs, if_false]
+      split at h
+      · -- no section at all
+        simp only [Option.some.injEq] at h; subst h
+        rename_i hnone
+        simp only [hnone]
+        refine ⟨Or.inr (by unfold wrapPiece; rw [List.append_assoc]; exact pre9_cdStart _), ?_⟩
+        have := dec_piece s [] (Or.inl rfl)
+        simpa [dec] using this
+      · rename_i idx hidx
+        simp only [hidx]
+        have hu := indexSub_prefix cdStart s idx hidx
+        split at h
+        · simp at h
+        · rename_i e he
+          simp only [he]
+          cases hr : authorText fuel ((s.drop idx).drop (e + 3)) with
+          | none => rw [hr] at h; simp at h
+          | some r' =>
+            rw [hr] at h
+            simp only [Option.map_some, Option.some.injEq] at h
+            subst h
+            obtain ⟨hc, hd⟩ := wrapOutside_delivered fuel _ r' hr
+            have hsec := dec_section (s.drop idx) e _ hu he hc
+            rw [hd] at hsec
+            have hcsec : contOk ((s.drop idx).take (e + 3) ++ wrapOutside fuel ((s.drop idx).drop (e + 3))) := by
+              refine Or.inr ?_
+              have hsplit := prefix_split cdStart (s.drop idx) hu
+              have hl9 : cdStart.length = 9 := rfl
+              have he9 : 9 ≤ e + 3 := by
+                have he' := he
+                rw [← hsplit, indexSub_cdStart] at he'
+                cases h1 : indexSub cdEnd ((s.drop idx).drop cdStart.length) with
+                | none => rw [h1] at he'; simp at he'
+                | some e' =>
+                  rw [h1] at he'
+                  simp only [Option.map_some, Option.some.injEq] at he'
+                  omega
+              rw [← hsplit, List.take_append, hl9, List.take_of_length_le (by simp [cdStart]; omega), List.append_assoc]
+              exact pre9_cdStart _
+            by_cases h0 : idx = 0
+            · subst h0
+              simp only [if_true, List.nil_append, List.take_zero]
+              exact ⟨hcsec, by simpa using hsec⟩
+            · simp only [h0, if_false]
+              refine ⟨Or.inr (by unfold wrapPiece; rw [List.append_assoc, List.append_assoc]; exact pre9_cdStart _), ?_⟩
+              rw [dec_piece _ _ hcsec, hsec]
+              simp
+
+end Gomjml.Lines
+
+namespace Gomjml.Lines
+open Gomjml.Amp Gomjml.Passes
+
+/-- the pass itself, for content that begins with a CDATA section -/
+theorem wrapInner_delivered_cdata (inner t : List B) (h : cdStart.isPrefixOf (inner.dropWhile isWs) = true)
+    (ht : authorText ((voidNorm inner).length + 1) (voidNorm inner) = some t) : dec (wrapInner inner) = some t := by
+  unfold wrapInner
+  rw [if_pos h]
+  exact (wrapOutside_delivered _ _ _ ht).2
+
+/-- non-vacuity: `<![CDATA[a]]> &lt;` — the author's text is `a &lt;`, the escape as he wrote it -/
+example : authorText 20 [60, 33, 91, 67, 68, 65, 84, 65, 91, 97, 93, 93, 62, 32, 38, 108, 116, 59] = some [97, 32, 38, 108, 116, 59] := by
+  decide
+
+end Gomjml.Lines
